@@ -104,7 +104,7 @@ class C07(Prop):
         cases = [self._case(rng) for _ in range(320 * k)]
         # every transform after statistics / a bandpass computed on ANOTHER range of the same length on the same
         # reader (state left on the reader must not leak into the transform)
-        for op in ("invert", "mask", "chans", "bands", "downsample", "subband", "zerodm", "zerodm", "zerodm"):
+        for iop, op in enumerate(("invert", "mask", "chans", "bands", "downsample", "subband", "zerodm", "zerodm", "zerodm")):
             for _ in range(k):
                 c = self._case(rng, op)
                 N = max(c["N"], 12)
@@ -112,7 +112,8 @@ class C07(Prop):
                 s = rng.randint(1, N - n)
                 s2 = rng.choice([x for x in range(0, N - n + 1) if x != s])
                 c.update(N=N, splits=[N], s=s, n=n, none_n=False, g=rng.choice((2, 3, 5, n)),
-                         pre=[[rng.choice(("stats", "stats", "bandpass", "stats_basic")), s2, n, rng.choice((1, 3, 64))]])
+                         pre=[[("stats", "stats_basic", "bandpass")[iop % 3] if op == "zerodm" else
+                               rng.choice(("stats", "stats", "bandpass", "stats_basic")), s2, n, rng.choice((1, 3, 64))]])
                 cases.append(c)
         # channel lists given in a cyclically rotated order (sorting them is a permutation that is not an involution)
         for _ in range(4 * k):
